@@ -264,9 +264,14 @@ def r19_4(ctx):
         fi = model.func(path, name)
         calls = [c for c in astq.calls(fi) if astq.call_name(c).endswith("assert_no_grad")]
         for c in calls:
-            ok = len(c.args) == 2 and isinstance(c.args[0], ast.List) and isinstance(c.args[1], ast.List) and \
-                [e.value for e in c.args[0].elts if isinstance(e, ast.Constant)] == [ast.unparse(e) for e in c.args[1].elts] \
-                and {"ts", "dt"} <= {ast.unparse(e) for e in c.args[1].elts}
+            # arguments bound by the callee's own parameter order, whatever style the call site uses; the labels only
+            # appear in the error message, so only their number matters (zip would silently drop unlabelled tensors)
+            pnames = [a.arg for a in ang.node.args.args]
+            bound = dict(zip(pnames, c.args))
+            bound.update({k.arg: k.value for k in c.keywords if k.arg})
+            vals = [bound.get(p) for p in pnames[:2]]
+            ok = len(pnames) >= 2 and all(isinstance(v, (ast.List, ast.Tuple)) for v in vals) and \
+                len(vals[0].elts) == len(vals[1].elts) and {"ts", "dt"} <= {ast.unparse(e) for e in vals[1].elts}
             rep.check(ok, "R19.4", astq.loc(fi, c), f"{fi.key}::R19.4::no-grad-args",
                       f"`{ast.unparse(c)[:90]}`: names and values must be aligned and include ts and dt",
                       "ts, dt (and tolerances) checked for requires_grad")
